@@ -10,6 +10,8 @@ and writes obligations closed by vm_compute:
     actual_sufficient      orders_sufficient actual = true
     actual_embedded        the orders the sequential model (Radix/RadixModel.v) embeds in its micro-steps are these
     skel_*_ok              the kinds/program order of the model's micro-step programs (on witness states) are the source's
+    skel_*_no_destroy      erase / find_or_insert / find contain no destructor call (p->~T(), std::destroy_at, frg::destruct,
+                           delete): the library never ends the lifetime of a value that readers can still reach
 Exits non-zero on any AST shape it does not recognise."""
 import json, os, subprocess, sys, tempfile
 
@@ -152,6 +154,14 @@ def events(n, out, mult=1):
         t = strip(kids(n)[0])
         if t.get("kind") == "CXXDependentScopeMemberExpr" and t.get("member") in ("prefix", "depth", "parent", "mask", "links"):
             die(7, "a compound update of %s" % t.get("member"))
+    # the end of a value's lifetime: p->~T(), std::destroy_at(p), frg::destruct(..), delete
+    dname = n.get("name") or n.get("member") or (n.get("referencedDecl") or {}).get("name") or ""
+    if k in ("CXXPseudoDestructorExpr", "CXXDeleteExpr") or \
+       (k in ("CXXDependentScopeMemberExpr", "MemberExpr") and dname.startswith("~")) or \
+       (k in ("UnresolvedLookupExpr", "DeclRefExpr", "UnresolvedMemberExpr") and dname in ("destroy_at", "destroy", "destroy_n", "destruct", "destruct_n")):
+        v = base_var(kids(n)[0]) if kids(n) else None
+        out.extend([("D", who(v))] * mult)
+        return
     if k == "CXXNewExpr":
         vars_ = []
         walk(n, lambda m: vars_.append(base_var(m)) if m.get("kind") == "CXXDependentScopeMemberExpr" and m.get("member") == "entries" else None)
@@ -199,6 +209,8 @@ def coq_kind(e):
         return "KField %s %s" % (e[1], {"prefix": "FPrefix", "depth": "FDepth", "parent": "FParent"}[e[2]])
     if e[0] == "N":
         return "KNew %s" % e[1]
+    if e[0] == "D":
+        return "KDestroy %s" % e[1]
     if e[0] == "S":
         return {"mask": "KMask %s" % e[2], "links": "KLink %s" % e[2], "root": "KRoot"}[e[1]]
     raise KeyError(e)
@@ -211,7 +223,7 @@ def main():
     for s_ in stmts_f:
         events(s_, ev)
     loads = {e[1]: e[2] for e in ev if e[0] == "L"}
-    if [e[:2] for e in ev] != [("L", "root"), ("L", "mask"), ("L", "links")]:
+    if [e[:2] for e in ev if e[0] != "D"] != [("L", "root"), ("L", "mask"), ("L", "links")]:
         die(6, "find: accesses changed: %s" % ev)
     # ---- find_or_insert: the three cases are the three if statements of the loop body
     pre, stmts = top_while(function("find_or_insert"))
@@ -252,6 +264,8 @@ def main():
     for s in stmts_e:
         events(s, eve)
     ste = [e for e in eve if e[0] == "S"]
+    pre_d = [e for e in pre_e if e[0] == "D"]
+    eve = pre_d + eve
     if [e[1] for e in ste] != ["mask"] or [e for e in eve if e[0] in ("F", "N")]:
         die(6, "erase: writes changed: %s" % eve)
 
@@ -271,7 +285,8 @@ def main():
         f.write("Definition src_c1 : list wkind := %s.\n" % lst(c1))
         f.write("Definition src_c2 : list wkind := %s.\n" % lst(c2))
         f.write("Definition src_c3 : list wkind := %s.\n" % lst(c3))
-        f.write("Definition src_erase : list wkind := %s.\n\n" % lst([e for e in eve if e[0] != "L"]))
+        f.write("Definition src_erase : list wkind := %s.\n" % lst([e for e in eve if e[0] != "L"]))
+        f.write("Definition src_find : list wkind := %s.\n\n" % lst([e for e in ev if e[0] != "L"]))
         obl = [
             ("actual_sufficient", "orders_sufficient actual = true"),
             ("actual_embedded", "orders_embedded actual = true"),
@@ -281,6 +296,9 @@ def main():
             ("skel_c2_root_ok", "kinds_of wit_c2_root = drop_last_link src_c2"),
             ("skel_c3_ok", "kinds_of wit_c3 = src_c3"),
             ("skel_erase_ok", "kinds_of wit_erase = src_erase"),
+            ("skel_erase_no_destroy", "has_destroy src_erase = false"),
+            ("skel_foi_no_destroy", "has_destroy (src_c1 ++ src_c2 ++ src_c3) = false"),
+            ("skel_find_no_destroy", "has_destroy src_find = false"),
         ]
         for name, stmt in obl:
             f.write("Lemma %s : %s.\nProof. vm_compute. reflexivity. Qed.\n" % (name, stmt))
